@@ -160,8 +160,10 @@ STRUCTS = {"PyOp": {"type": "String", "index": ("pyidx",)}}
 class Fn:
     """signature of a translated function, for calls"""
 
-    def __init__(self, name, params, ret, fuel, ptypes=None):
+    def __init__(self, name, params, ret, fuel, ptypes=None, orig_params=None, dropped=()):
         self.name, self.params, self.ret, self.fuel, self.ptypes = name, params, ret, fuel, ptypes
+        self.orig_params = orig_params or list(params)
+        self.dropped = set(dropped)
 
 
 class Ctx:
@@ -183,6 +185,8 @@ class FnTr:
         self.cache_step = cache_step
         self.src = src
         self.params = [a.arg for a in node.args.args] + [a.arg for a in node.args.kwonlyargs]
+        self.orig_params = getattr(node, "_orig_params", None) or list(self.params)
+        self.dropped = set(getattr(node, "_dropped", ()))
         self.self_fields = self_fields or {}
         if self.params and self.params[0] == "self":
             self.params = self.params[1:]
@@ -221,7 +225,7 @@ class FnTr:
                 if isinstance(st, ast.Assign) and len(st.targets) == 1:
                     self.bind(st.targets[0], self.etype(st.value))
                 elif isinstance(st, ast.AugAssign):
-                    self.bind(st.target, self.etype(st.value))
+                    self.bind(st.target, self.etype(ast.BinOp(left=st.target, op=st.op, right=st.value)))
                 elif isinstance(st, ast.Call) and isinstance(st.func, ast.Attribute) and st.func.attr == "add" \
                         and len(st.args) == 1 and self.vkey(st.func.value) is not None:
                     self.bind(st.func.value, ("set", self.etype(st.args[0])))
@@ -348,6 +352,13 @@ class FnTr:
             return t
         if isinstance(e, ast.UnaryOp):
             return "Bool" if isinstance(e.op, ast.Not) else self.etype(e.operand)
+        if isinstance(e, ast.Call) and isinstance(e.func, ast.Name) and e.func.id == "Sequence" and not e.args:
+            return ("list", ("struct", "PyOp"))
+        if isinstance(e, ast.Call) and isinstance(e.func, ast.Name) and e.func.id == "operation" and len(e.args) == 2:
+            return ("struct", "PyOp")
+        if isinstance(e, ast.Call) and isinstance(e.func, ast.Attribute) and e.func.attr in ("shift", "remove_useless_wm") \
+                and self.etype(e.func.value) == ("list", ("struct", "PyOp")):
+            return ("list", ("struct", "PyOp"))
         if isinstance(e, ast.Call) and isinstance(e.func, ast.Name) and e.func.id == "Table" and not e.args:
             return ("list", None)
         if isinstance(e, ast.ListComp):
@@ -497,6 +508,25 @@ class FnTr:
             if isinstance(e.op, ast.Div) and T == "Rat":
                 return "(← ratDiv %s %s)" % (a, b)
             raise Unsupported("operator %s on %s" % (type(e.op).__name__, T))
+        if isinstance(e, ast.Call) and isinstance(e.func, ast.Name) and e.func.id == "Sequence" and not e.args:
+            return "[]"
+        if isinstance(e, ast.Call) and isinstance(e.func, ast.Name) and e.func.id == "operation" and len(e.args) == 2 \
+                and isinstance(e.args[0], ast.Constant) and isinstance(e.args[0].value, str):
+            ix = e.args[1]
+            if isinstance(ix, ast.List) and len(ix.elts) == 2:
+                idx = "(.pair %s %s)" % (self.expr(ix.elts[0], "num"), self.expr(ix.elts[1], "num"))
+            elif isinstance(ix, ast.List):
+                raise Unsupported("operation index of an unexpected length")
+            else:
+                idx = "(.single %s)" % self.expr(ix, "num")
+            return '(PyOp.mk "%s" %s)' % (e.args[0].value, idx)
+        if isinstance(e, ast.Call) and isinstance(e.func, ast.Attribute) and e.func.attr == "shift" and len(e.args) == 1 \
+                and self.etype(e.func.value) == ("list", ("struct", "PyOp")):
+            return "(seqShift %s %s)" % (self.expr(e.func.value), self.expr(e.args[0], "num"))
+        if isinstance(e, ast.Call) and isinstance(e.func, ast.Attribute) and e.func.attr == "remove_useless_wm" \
+                and self.etype(e.func.value) == ("list", ("struct", "PyOp")):
+            k = self.expr(e.args[0], "num") if e.args else ("(-1 : Int)" if not e.keywords else self.expr(e.keywords[0].value, "num"))
+            return "(seqRemoveUselessWm %s %s)" % (self.expr(e.func.value), k)
         if isinstance(e, ast.Call) and isinstance(e.func, ast.Name) and e.func.id == "Table" and not e.args:
             return "[]"
         if isinstance(e, ast.ListComp):
@@ -636,6 +666,13 @@ class FnTr:
             if f == "int" and len(e.args) == 1 and self.etype(e.args[0]) is not None and \
                     self.etype(e.args[0])[0] == "enum":
                 return "(%s.toInt %s)" % (self.etype(e.args[0])[1], self.expr(e.args[0]))
+            if f == "argmin" and len(e.args) == 1:
+                at = self.etype(e.args[0])
+                et = at[1] if at is not None and not isinstance(at, str) and at[0] == "list" else None
+                if et == "Rat" and "argmin_rat" in self.ctx.fns:
+                    f = "argmin_rat"
+                elif et == "ER" and "argmin_er" in self.ctx.fns:
+                    f = "argmin_er"
             if f == self.pname or f in self.ctx.fns:
                 if f == self.pname:
                     fuel, lean, params = self.recursive, self.lean_name, self.params
@@ -647,13 +684,28 @@ class FnTr:
                 args = [None] * len(params)
                 ptys = (self.ctx.fns[f].ptypes if f in self.ctx.fns and self.ctx.fns[f].ptypes else {}) \
                     if f != self.pname else self.ptypes
+                def arg_as(a, pt):
+                    if isnum(pt):
+                        return self.num_as(a, pt)
+                    if self.is_opt(pt):
+                        return self.expr(a) if self.is_opt(self.etype(a)) else "(some %s)" % self.expr(a)
+                    return self.expr(a, "num")
+                if f == self.pname:
+                    orig, dropped = self.orig_params, self.dropped
+                else:
+                    orig, dropped = self.ctx.fns[f].orig_params, self.ctx.fns[f].dropped
                 for i, a in enumerate(e.args):
-                    args[i] = self.num_as(a, ptys.get(params[i])) if isnum(ptys.get(params[i])) else self.expr(a, "num")
+                    if i >= len(orig):
+                        raise Unsupported("too many arguments for %s" % f)
+                    if orig[i] in dropped:
+                        continue          # a parameter fixed by the specialisation (e.g. one_read_disk)
+                    args[params.index(orig[i])] = arg_as(a, ptys.get(orig[i]))
                 for kw in e.keywords:
+                    if kw.arg in dropped:
+                        continue
                     if kw.arg not in params:
                         raise Unsupported("keyword %s" % kw.arg)
-                    args[params.index(kw.arg)] = self.num_as(kw.value, ptys.get(kw.arg)) \
-                        if isnum(ptys.get(kw.arg)) else self.expr(kw.value, "num")
+                    args[params.index(kw.arg)] = arg_as(kw.value, ptys.get(kw.arg))
                 if any(a is None for a in args):
                     raise Unsupported("call of %s with defaulted arguments" % f)
                 return "(← %s %s%s)" % (lean, "fuel " if fuel else "", " ".join(args))
@@ -1044,6 +1096,15 @@ class FnTr:
                 if not self.gen:
                     raise Unsupported("yield outside a generator translation")
                 self.emit_yield(st.value.value, ind, out)
+                continue
+            if isinstance(st, ast.Expr) and isinstance(st.value, ast.Call) and isinstance(st.value.func, ast.Attribute) \
+                    and st.value.func.attr in ("insert", "insert_sequence") and len(st.value.args) == 1 \
+                    and self.vtypes.get(self.vkey(st.value.func.value)) == ("list", ("struct", "PyOp")):
+                k = self.vkey(st.value.func.value)
+                if st.value.func.attr == "insert":
+                    out.append("%s%s := %s ++ [%s]" % (ind, self.vn(k), self.vn(k), self.expr(st.value.args[0])))
+                else:
+                    out.append("%s%s := %s ++ %s" % (ind, self.vn(k), self.vn(k), self.expr(st.value.args[0])))
                 continue
             if isinstance(st, ast.Expr) and isinstance(st.value, ast.Call) and isinstance(st.value.func, ast.Attribute) \
                     and st.value.func.attr == "append" and isinstance(st.value.func.value, ast.Subscript) \
@@ -1442,7 +1503,7 @@ class FnTr:
                                    (["self.n", "self.max_n"] if self.gen.get("online") else []) if k not in assigned]
         for x in ast.walk(st):   # lists changed by append / pop
             if isinstance(x, ast.Call) and isinstance(x.func, ast.Attribute) and \
-                    x.func.attr in ("append", "pop", "add", "remove", "discard"):
+                    x.func.attr in ("append", "pop", "add", "remove", "discard", "insert", "insert_sequence"):
                 k = self.vkey(x.func.value.value if isinstance(x.func.value, ast.Subscript) else x.func.value)
                 if k in self.vtypes and k not in assigned:
                     assigned.append(k)
@@ -1582,7 +1643,7 @@ class FnTr:
         return "\n\n".join(["\n".join(lines)]) if not self.aux else "\n\n".join(self.aux + ["\n".join(lines[len(self.aux):])]), fuel
 
 
-def prune_constants(fn, env):
+def prune_constants(fn, env, fold_bools=False):
     """Specialise a function body to module-level names with a known constant value (here: `numba = None`, the
     library's own fallback when numba is not installed): tests `X is None` on such names are decided, the dead
     branch is dropped, and a local that is assigned exactly once, to `None`, is treated the same way."""
@@ -1604,6 +1665,9 @@ def prune_constants(fn, env):
         for k, vs in counts.items():
             if len(vs) == 1 and isinstance(vs[0], ast.Constant) and vs[0].value is None and k not in env:
                 env[k] = None
+            if len(vs) == 1 and isinstance(vs[0], ast.Constant) and isinstance(vs[0].value, bool) and k not in env \
+                    and fold_bools:
+                env[k] = vs[0].value
 
         class T(ast.NodeTransformer):
             def visit_Compare(s2, node):
@@ -1697,6 +1761,66 @@ def split_dict_keys(fn):
     return fn
 
 
+def inline_revolver_params(fn, utils_tree):
+    """`params = revolver_parameters(wd, rd, uf, ub); parameters = dict(params); … parameters["uf"] …`: every subscript
+    with a constant key is replaced by the value the dict literal of utils.revolver_parameters gives it (formal
+    parameters substituted by the actual arguments); the `Sequence(Function(...), concat=…)` constructor becomes the empty
+    operation list and `operation = partial(Op, params=…)` disappears (`operation(type, index)` builds a `PyOp`)."""
+    import copy
+    fn = copy.deepcopy(fn)
+    rp = find_def(utils_tree, "revolver_parameters")
+    formals = [a.arg for a in rp.args.args]
+    lit = None
+    for st in ast.walk(rp):
+        if isinstance(st, ast.Dict):
+            lit = st
+            break
+    if lit is None:
+        raise Unsupported("revolver_parameters no longer builds a dict literal")
+    table = {k.value: v for k, v in zip(lit.keys, lit.values) if isinstance(k, ast.Constant)}
+    names = {}
+    for st in ast.walk(fn):
+        if isinstance(st, ast.Assign) and len(st.targets) == 1 and isinstance(st.targets[0], ast.Name) \
+                and isinstance(st.value, ast.Call) and isinstance(st.value.func, ast.Name):
+            if st.value.func.id == "revolver_parameters" and len(st.value.args) == len(formals) and not st.value.keywords:
+                names[st.targets[0].id] = dict(zip(formals, st.value.args))
+            elif st.value.func.id == "dict" and len(st.value.args) == 1 and isinstance(st.value.args[0], ast.Name) \
+                    and st.value.args[0].id in names:
+                names[st.targets[0].id] = names[st.value.args[0].id]
+
+    class Sub(ast.NodeTransformer):
+        def visit_Subscript(s2, node):
+            s2.generic_visit(node)
+            if isinstance(node.value, ast.Name) and node.value.id in names and isinstance(node.slice, ast.Constant):
+                key = node.slice.value
+                if key not in table:
+                    return node      # only legal in code that constant folding removes
+                actual = names[node.value.id]
+
+                class Arg(ast.NodeTransformer):
+                    def visit_Name(s3, n2):
+                        return copy.deepcopy(actual[n2.id]) if n2.id in actual else n2
+                return ast.copy_location(Arg().visit(copy.deepcopy(table[key])), node)
+            return node
+
+        def visit_Assign(s2, node):
+            s2.generic_visit(node)
+            if len(node.targets) == 1 and isinstance(node.targets[0], ast.Name):
+                t, v = node.targets[0].id, node.value
+                if t in names and isinstance(v, ast.Call) and isinstance(v.func, ast.Name) and \
+                        v.func.id in ("revolver_parameters", "dict"):
+                    return ast.copy_location(ast.Pass(), node)
+                if isinstance(v, ast.Call) and isinstance(v.func, ast.Name) and v.func.id == "partial" and v.args \
+                        and isinstance(v.args[0], ast.Name) and v.args[0].id in ("Op", "Operation"):
+                    return ast.copy_location(ast.Pass(), node)
+                if isinstance(v, ast.Call) and isinstance(v.func, ast.Name) and v.func.id == "Sequence":
+                    node.value = ast.copy_location(ast.Call(func=ast.Name(id="Sequence", ctx=ast.Load()), args=[], keywords=[]), v)
+            return node
+    fn = Sub().visit(fn)
+    ast.fix_missing_locations(fn)
+    return fn
+
+
 def find_def(tree, qual):
     parts = qual.split(".")
     body = tree.body
@@ -1755,8 +1879,19 @@ FUNCTIONS = [
       "drop_params": ["print_table", "one_read_disk", "opt_1d"]}),
     ("hrevolve_sequences/hrevolve.py", "get_hopt_table", "get_hopt_table",
      {"cvect": ("list", "Int"), "wvect": ("list", "Rat"), "rvect": ("list", "Rat"), "ub": "Rat", "uf": "Rat"}, {}),
+    ("hrevolve_sequences/basic_functions.py", "argmin", "argmin_rat", {"list": ("list", "Rat")}, {}),
+    ("hrevolve_sequences/revolve.py", "revolve", "revolve",
+     {"rd": "Rat", "wd": "Rat", "fwd_cost": "Rat", "bwd_cost": "Rat", "opt_0": ("opt", ("list", ("list", "Rat")))},
+     {"recursive": True, "revolver_params": True, "consts": {}, "fold_bools": True}),
+    ("hrevolve_sequences/disk_revolve.py", "disk_revolve", "disk_revolve",
+     {"rd": "Rat", "wd": "Rat", "fwd_cost": "Rat", "bwd_cost": "Rat", "opt_0": ("opt", ("list", ("list", "Rat"))),
+      "opt_inf": ("opt", ("list", "Rat"))},
+     {"recursive": True, "revolver_params": True, "consts": {"opt_1d": None}, "drop_params": ["opt_1d"], "fold_bools": True}),
     ("hrevolve_sequences/periodic_disk_revolve.py", "mxrr_close_formula", "mxrr_close_formula",
      {"uf": "Rat", "rd": "Rat", "wd": "Rat"}, {}),
+    ("hrevolve_sequences/periodic_disk_revolve.py", "periodic_disk_revolve", "periodic_disk_revolve",
+     {"rd": "Rat", "wd": "Rat", "uf": "Rat", "ub": "Rat", "opt_0": ("opt", ("list", ("list", "Rat"))), "mmax": ("opt", "Int")},
+     {"revolver_params": True, "consts": {"opt_1d": None}, "drop_params": ["opt_1d"], "fold_bools": True}),
     ("hrevolve.py", "_convert_action", "convert_action", {"action": ("struct", "PyOp")}, {"split_dict_keys": True}),
     ("hrevolve.py", "_last_reads", "last_reads", {"schedule": ("list", ("struct", "PyOp"))}, {}),
 ]
@@ -1907,15 +2042,20 @@ def generate(repo):
                 raise Unsupported("*args/**kwargs")
             if opts.get("split_dict_keys"):
                 node = split_dict_keys(node)
-            if opts.get("consts"):
-                node = prune_constants(node, opts["consts"])
+            if opts.get("revolver_params"):
+                node = inline_revolver_params(node, tree("hrevolve_sequences/utils.py"))
+            if opts.get("consts") is not None:
+                node = prune_constants(node, opts["consts"], fold_bools=bool(opts.get("fold_bools")))
                 drop = set(opts.get("drop_params", []))
+                node._orig_params = [a.arg for a in node.args.args] + [a.arg for a in node.args.kwonlyargs]
+                node._dropped = drop
                 node.args.args = [a for a in node.args.args if a.arg not in drop]
             tr = FnTr(ctx, node, qual.split(".")[-1], lean, ptypes, bool(opts.get("recursive")),
                       cache_step=has_cache, src="%s:%d-%d" % (f, node.lineno, node.end_lineno))
             text, fuel = tr.emit()
             (late_chunks if f == "hrevolve.py" else chunks).append(text)
-            ctx.fns[qual.split(".")[-1]] = Fn(lean, tr.params, tr.ret, fuel, dict(tr.ptypes))
+            ctx.fns[lean if lean != qual.split(".")[-1] and qual.split(".")[-1] in ctx.fns else qual.split(".")[-1]] = \
+                Fn(lean, tr.params, tr.ret, fuel, dict(tr.ptypes), tr.orig_params, tr.dropped)
             status[lean] = "ok"
         except (Unsupported, SyntaxError, OSError, KeyError, IndexError, TypeError, AttributeError) as e:
             status[lean] = "untranslatable: %s: %s" % (type(e).__name__, e)
